@@ -7,7 +7,7 @@ import xml.etree.ElementTree as ET
 NS = 'http://www.collada.org/2005/11/COLLADASchema'
 ET.register_namespace('', NS)
 
-KINDS = ['dangling', 'nohash', 'nonnum', 'emptytext', 'rmchild', 'rmattr', 'truncate']
+KINDS = ['dangling', 'nohash', 'nonnum', 'emptytext', 'rmchild', 'rmattr', 'truncate', 'crossref']
 
 LIBS = {  # library tag -> (item tag, Collada attribute)
     'library_images': ('image', 'images'),
@@ -153,6 +153,11 @@ def apply_faults(text, faults):
                     el.text = ' '.join(toks)
         elif k == 'emptytext':
             el.text = ''
+        elif k == 'crossref':
+            if f.get('attr'):
+                el.set(f['attr'], f['value'])
+            else:
+                el.text = f['value']
         else:
             raise ValueError(k)
     for el in removed:
@@ -281,7 +286,7 @@ def site_label(f):
     where = f.get('tag', '?')
     if f.get('attr'):
         where += '@' + f['attr']
-    elif f['kind'] in ('nonnum', 'emptytext', 'dangling'):
+    elif f['kind'] in ('nonnum', 'emptytext', 'dangling', 'crossref'):
         where += '/text'
     return '%s:%s' % (f['kind'], where)
 
@@ -293,3 +298,77 @@ def nonascii_positions(data):
         if b >= 0x80:
             out.update((i - 1, i, i + 1))
     return sorted(p for p in out if 0 <= p <= len(data))
+
+
+# ---------------------------------------------------------------- names defined in ANOTHER scope
+
+SCOPE_TAGS = ('effect', 'geometry', 'controller', 'visual_scene', 'animation')
+
+
+def crossref_sites(root):
+    """scoped references re-pointed at a name of the same role that is defined only in a different
+    scope of the same kind (another effect's sampler / surface / value sid, another geometry's or
+    controller's source or vertices id, another scene's top-level node id).  Such a reference is as
+    dangling as a reference to an undefined name."""
+    els = elements(root)
+    parents = parent_map(root)
+
+    def scope_of(e):
+        while e is not None:
+            if bare(e.tag) in SCOPE_TAGS and bare(parents.get(e, e).tag).startswith('library_'):
+                return e
+            e = parents.get(e)
+        return None
+
+    defs = {}          # (scope tag, role) -> [(scope element, name)]
+    for e in els:
+        sc = scope_of(e)
+        if sc is None:
+            continue
+        st, t = bare(sc.tag), bare(e.tag)
+        if t == 'newparam' and e.get('sid'):
+            kid = [bare(c.tag) for c in e]
+            role = 'sampler' if 'sampler2D' in kid else 'surface' if 'surface' in kid else 'value'
+            defs.setdefault((st, role), []).append((sc, e.get('sid')))
+        elif t in ('source', 'vertices') and e.get('id') and st in ('geometry', 'controller', 'animation'):
+            defs.setdefault((st, 'source'), []).append((sc, e.get('id')))
+        elif t == 'node' and st == 'visual_scene' and parents.get(e) is sc and e.get('id'):
+            defs.setdefault((st, 'node'), []).append((sc, e.get('id')))
+    out = []
+    for i, e in enumerate(els):
+        sc = scope_of(e)
+        if sc is None:
+            continue
+        st, t = bare(sc.tag), bare(e.tag)
+        site = None
+        if t == 'texture' and e.get('texture') is not None:
+            site = ('sampler', 'texture', '')
+        elif t == 'source' and bare(parents[e].tag) == 'sampler2D':
+            site = ('surface', None, '')
+        elif t == 'param' and e.get('ref') is not None:
+            site = ('value', 'ref', '')
+        elif t == 'input' and (e.get('source') or '').startswith('#') and st in ('geometry', 'controller', 'animation'):
+            site = ('source', 'source', '#')
+        elif t == 'instance_node' and st == 'visual_scene' and (e.get('url') or '').startswith('#'):
+            site = ('node', 'url', '#')
+        if site is None:
+            continue
+        role, attr, pre = site
+        own = {n for s_, n in defs.get((st, role), []) if s_ is sc}
+        for s_, name in defs.get((st, role), []):
+            if s_ is sc or name in own:
+                continue
+            f = {'kind': 'crossref', 'elem': i, 'tag': t, 'value': pre + name}
+            if attr:
+                f['attr'] = attr
+            else:
+                f['tok'] = 0
+            out.append(f)
+    return out
+
+
+def dangling_twin(f):
+    """the same fault with an undefined name"""
+    g = dict(f)
+    g['value'] = ('#' if f['value'].startswith('#') else '') + 'nosuch-zz'
+    return g
